@@ -119,6 +119,30 @@ CHECKS = {
             "DESIGN.md §5 C23"),
 }
 
+# checks whose manifest text is taken from the module itself (RULE / COMPONENTS); value = technique
+AUTO = {
+    "C12": "every single-bit flip of a victim token plus a fixed list of presentation faults (truncate, extend, re-encode, swap, cross-stream, foreign key, other identity, clock at ttl-1/ttl/ttl+1, restart) against 1-2 real WSGI workers on a virtual clock",
+    "C13": "every token pair of a stream's lifetime presented to every other stream endpoint of a 12-method service on warm / cold / restarted simulated workers",
+    "C14": "seeded request histories over 2-3 simulated workers with cache capacities 0-3, clock advances across the TTL, restarts and colliding call ids; differential against a freshly restarted reference worker",
+    "C15": "run-time monitor over seeded mutated requests (method / body / content type / encoding / token / size / auth) against the real WSGI stack",
+    "C16": "run-time monitor with exact byte accounting: caps drawn at size-1/size/size+1 of the program's own measured wire, upload and buffer sizes; in-memory storage node records every upload",
+    "C20": "run-time monitor: colliding method names x prefixes x verbs x path forms x accepted/rejected callers against the real route table and middleware stack; recording implementation as oracle",
+    "C21": "seeded authenticator compositions with per-member failure injection and injected intermediary 401 bodies, real client; reference model of the unauthorized spec",
+    "C25": "seeded session histories on two simulated workers x identities; every minted token presented to every (worker, identity) pair after every step, every bit flip and truncation of a sampled token on RPC and DELETE paths",
+    "C26": "2-3 request threads, DELETE thread, real reaper body and operator drain/shutdown thread on one session under a baton-passing scheduler with PCT pre-emption at line events of _sticky.py, virtual clock crossing the TTL",
+    "C27": "seeded step sequences over two real client session views (open/close/resume/detach/drain) against a simulated sticky worker; client-view == server-registry invariant after every response",
+    "C36": "per-request dependency faults (resolver outage, crash, unusable ttl, unknown) x caller classes x body grammar against the real introspection resource on a virtual clock",
+    "C38": "per-send network faults (connect/read/write/pool errors delivered or not, intermediary statuses, 29 Retry-After classes) drawn from the tape, at most max_retries+2 per logical request; virtual sleep and jitter; real client retry code against a real WSGI worker",
+    "C40": "run-time monitor: every response class of a seeded configuration must carry exactly the implied capability headers; real client capability probe",
+}
+import importlib, sys  # noqa: E402
+sys.path[:0] = [VERIF, os.path.join(VERIF, "stubs"), os.environ.get("VERIF_REPO") or "/repo"]
+for _pid, _tech in AUTO.items():
+    _m = importlib.import_module("checks." + _pid.lower())
+    _comp = _m.COMPONENTS
+    CHECKS[_pid] = (_m.LEVEL, SIM + _tech, _m.RULE[0].upper() + _m.RULE[1:] + ". Sampling, not proof.",
+                    "real: " + "; ".join(_comp["real"]) + " | stub: " + "; ".join(_comp["stub"]), f"DESIGN.md §5 {_pid}")
+
 manifest = {
     "version": 1,
     "setup_cmd": "mkdir -p evidence replays && /venv/bin/python -c 'import vgi_rpc, pyarrow' ",
